@@ -222,7 +222,7 @@ def isunitvec(v, tol=10):
 
     :seealso: unit, iszerovec, isunittwist
     """
-    return abs(np.linalg.norm(v) - 1) < tol * _eps
+    return abs(np.linalg.norm(_double(v)) - 1) < tol * _eps
 
 
 def iszerovec(v, tol=10):
@@ -244,7 +244,15 @@ def iszerovec(v, tol=10):
 
     :seealso: unit, isunitvec, isunittwist
     """
-    return np.linalg.norm(v) < tol * _eps
+    return np.linalg.norm(_double(v)) < tol * _eps
+
+
+def _double(v):
+    # the norm of a half- or single-precision array is computed in double
+    # precision (in float16 the norm of [1, 0.02] rounds to exactly 1)
+    if isinstance(v, np.ndarray) and v.dtype.kind == 'f' and v.dtype.itemsize < 8:
+        return v.astype(np.float64)
+    return v
 
 def iszero(v, tol=10):
     """
